@@ -244,7 +244,7 @@ Theorem calls_sound : forall w st c req clid m args st' r e,
    (clid < 0 /\ exists o, exported st c clid o /\ e = ECallable o) \/
    (0 < clid /\ exists o s, exported st c clid o /\ m = MStr s /\ e = EObj o (remote_prefix ++ s) /\
         In (remote_prefix ++ s)%string (o_attrs (w_obj w o)) /\
-        (forall l, o_iface (w_obj w o) = Some l -> In s l))).
+        (forall l, iface_of w (s_decl st) o = Some l -> In s l))).
 Proof.
   intros w st c req clid m args st' r e H Hout. cbn [step] in H.
   destruct (negb (c_alive (get_conn st c))) eqn:AL.
@@ -260,7 +260,7 @@ Proof.
       destruct (grant w st0 c o "") as [s2 sent]. inversion H; subst. exact Hout. }
     subst out. destruct (broker_call_enter _ _ _ _ B) as [s [? [? [? ?]]]]. exists s; auto.
   - apply Z.eqb_neq in BC. unfold broker_clid in BC.
-    destruct (obj_call w (s_copy st) (get_conn st c) clid m args) as [inst out] eqn:O.
+    destruct (obj_call (eff w (s_decl st)) (s_copy st) (get_conn st c) clid m args) as [inst out] eqn:O.
     inversion H; subst. cbn [r_out] in Hout. subst out.
     destruct (obj_call_enter _ _ _ _ _ _ _ _ O) as [o [rc [G [[[S E]|[S [s [M [E [A I]]]]]] D]]]].
     + right; left. split; [exact S|]. exists o. split; [exists rc; exact G | exact E].
@@ -293,7 +293,7 @@ Proof.
     destruct (found_name w st n) as [[o st0]|]; [|inversion H; subst; destruct Hin].
     destruct (req =? 0); [inversion H; subst; destruct Hin|].
     destruct (grant w st0 c o "") as [s2 sent]. inversion H; subst. destruct Hin.
-  - destruct (obj_call w (s_copy st) (get_conn st c) clid m args) as [inst out] eqn:O.
+  - destruct (obj_call (eff w (s_decl st)) (s_copy st) (get_conn st c) clid m args) as [inst out] eqn:O.
     inversion H; subst. cbn [r_inst] in Hin. clear H.
     unfold obj_call in O. destruct (zget clid (c_exports (get_conn st c))) as [[o rc]|].
     2:{ inversion O; subst. destruct Hin. }
@@ -329,7 +329,7 @@ Lemma step_msg_shape : forall w st c req clid m args st' r,
        end
      end) \/
   (c_alive (get_conn st c) = true /\ clid <> broker_clid /\ exists inst out,
-     obj_call w (s_copy st) (get_conn st c) clid m args = (inst, out) /\
+     obj_call (eff w (s_decl st)) (s_copy st) (get_conn st c) clid m args = (inst, out) /\
      r = {| r_inst := inst; r_out := out; r_sent := [] |} /\
      st' = match out with Aborted => set_conn st c (drop_conn (get_conn st c)) | _ => st end).
 Proof.
@@ -349,7 +349,7 @@ Proof.
       * inversion H; subst. cbn. auto.
     + inversion H; subst. cbn. auto.
   - right. apply Z.eqb_neq in BC. split; [reflexivity|]. split; [exact BC|].
-    destruct (obj_call w (s_copy st) (get_conn st c) clid m args) as [inst out] eqn:O.
+    destruct (obj_call (eff w (s_decl st)) (s_copy st) (get_conn st c) clid m args) as [inst out] eqn:O.
     exists inst, out. split; [reflexivity|]. inversion H; subst. auto.
 Qed.
 
@@ -413,7 +413,7 @@ Proof.
   intros w st c req clid m args st' r e H Hout NZ. cbn [step] in H.
   destruct (negb (c_alive (get_conn st c))). { inversion H; subst. discriminate. }
   destruct (clid =? broker_clid) eqn:BC. { apply Z.eqb_eq in BC. unfold broker_clid in BC. contradiction. }
-  destruct (obj_call w (s_copy st) (get_conn st c) clid m args) as [inst out] eqn:O.
+  destruct (obj_call (eff w (s_decl st)) (s_copy st) (get_conn st c) clid m args) as [inst out] eqn:O.
   inversion H; subst. cbn [r_out] in Hout. subst out.
   destruct (obj_call_enter _ _ _ _ _ _ _ _ O) as [o [rc [_ [_ D]]]].
   destruct (do_args_ok _ _ _ _ _ D) as [A [B C]]. split; [exact A|]. split; [exact B|].
@@ -546,7 +546,7 @@ Proof. intros [Nx _]. split; [exact Nx|]. cbn. intros ? ? ? []. Qed.
 
 Lemma step_inv w st e st' r log : inv st log -> step w st e = (st', r) -> inv st' (log ++ r_sent r).
 Proof.
-  intros H S. destruct e as [n o sw|o|n cls|n cls em|n o|n| |c o sw|c req clid m args|c t|c].
+  intros H S. destruct e as [n o sw|o|n cls|n cls em|o d|n o|n| |c o sw|c req clid m args|c t|c].
   - cbn [step] in S. inversion S; subst. cbn [r_sent res0]. apply inv_same_conns with (st := st); [|exact H]. intros c; apply get_assign.
   - cbn [step] in S. inversion S; subst. cbn [r_sent res0]. apply inv_same_conns with (st := st); [|exact H].
     intros c. destruct (zget o (s_r2n st)); [|reflexivity]. destruct (is_some _); destruct c; reflexivity.
@@ -557,6 +557,7 @@ Proof.
       inversion S; subst; cbn [r_sent res0];
       first [ rewrite app_nil_r; exact H
             | apply inv_same_conns with (st := st); [intros c; destruct c; reflexivity | exact H] ].
+  - cbn [step] in S. inversion S; subst. cbn [r_sent res0]. apply inv_same_conns with (st := st); [|exact H]. intros c; destruct c; reflexivity.
   - cbn [step] in S. inversion S; subst. cbn [r_sent res0]. apply inv_same_conns with (st := st); [|exact H]. intros c; destruct c; reflexivity.
   - cbn [step] in S. inversion S; subst. cbn [r_sent res0]. apply inv_same_conns with (st := st); [|exact H]. intros c; destruct c; reflexivity.
   - cbn [step] in S. inversion S; subst. cbn [r_sent res0]. apply inv_same_conns with (st := st); [|exact H]. intros c; destruct c; reflexivity.
@@ -624,7 +625,7 @@ Proof.
     destruct (negb (c_alive (get_conn st c))); [inversion G; subst; destruct Hin|].
     destruct (match find_obj o (c_exports (get_conn st c)) with Some (k0, rc) => _ | None => _ end) as [[clid rc] nxt].
     inversion G; subst. destruct Hin as [E|[]]. inversion E; subst. auto. }
-  intros w st e st' r c clid o S Hin. destruct e as [n o0 sw|o0|n cls|n cls em|n o0|n| |c0 o0 sw|c0 req clid0 m args|c0 t|c0];
+  intros w st e st' r c clid o S Hin. destruct e as [n o0 sw|o0|n cls|n cls em|o0 d|n o0|n| |c0 o0 sw|c0 req clid0 m args|c0 t|c0];
     try (cbn [step] in S; inversion S; subst; destruct Hin; fail).
   - cbn [step] in S. destruct (grant w st c0 o0 sw) as [s2 sent] eqn:G. inversion S; subst. cbn [r_sent] in Hin.
     destruct (GS _ _ _ _ _ _ _ _ _ _ G Hin) as [? ?]. subst. left. eexists; reflexivity.
@@ -653,25 +654,25 @@ Qed.
 
 (* ------------------------------------------------------------------ locality *)
 Ltac split_matches :=
-  repeat (cbn [get_conn set_conn set_names set_copy s_n2r s_r2n s_copy s_h s_a s_b fst snd res0 r_inst r_out r_sent
+  repeat (cbn [get_conn set_conn set_names set_copy s_n2r s_r2n s_copy s_h s_decl s_a s_b fst snd res0 r_inst r_out r_sent
                 c_alive c_exports c_next drop_conn];
           match goal with
           | |- context [match ?x with _ => _ end] => destruct x eqn:?
           end);
-  cbn [get_conn set_conn set_names set_copy s_n2r s_r2n s_copy s_h s_a s_b fst snd res0 r_inst r_out r_sent
+  cbn [get_conn set_conn set_names set_copy s_n2r s_r2n s_copy s_h s_decl s_a s_b fst snd res0 r_inst r_out r_sent
        c_alive c_exports c_next drop_conn]; try reflexivity; try congruence.
 
 Lemma grant_frame w st c c' x o sw : c <> c' ->
   grant w (set_conn st c' x) c o sw = (set_conn (fst (grant w st c o sw)) c' x, snd (grant w st c o sw)).
 Proof.
-  intros NC. destruct st as [n2r r2n cp hh a b].
+  intros NC. destruct st as [n2r r2n cp hh dc a b].
   destruct c, c'; try congruence; unfold grant, assign_name; split_matches.
 Qed.
 
 Lemma found_frame w st c' x n :
   found_name w (set_conn st c' x) n =
   match found_name w st n with Some (o, s0) => Some (o, set_conn s0 c' x) | None => None end.
-Proof. destruct st as [n2r r2n cp hh a b]. destruct c'; unfold found_name; split_matches. Qed.
+Proof. destruct st as [n2r r2n cp hh dc a b]. destruct c'; unfold found_name; split_matches. Qed.
 
 (* the other connection's table is a frame for everything that does not happen on it: it is neither read nor written *)
 Theorem step_frame : forall w st e c' x,
@@ -679,14 +680,15 @@ Theorem step_frame : forall w st e c' x,
   step w (set_conn st c' x) e = (set_conn (fst (step w st e)) c' x, snd (step w st e)).
 Proof.
   intros w st e c' x NC.
-  destruct e as [n o sw|o|n cls|n cls em|n o|n| |c o sw|c req clid m args|c t|c]; cbn [on_conn] in NC.
-  - destruct st as [n2r r2n cp hh a b]. destruct c'; unfold step, assign_name; split_matches.
-  - destruct st as [n2r r2n cp hh a b]. destruct c'; unfold step; split_matches.
-  - destruct st as [n2r r2n cp hh a b]. destruct c'; unfold step; split_matches.
-  - destruct st as [n2r r2n cp hh a b]. destruct c'; unfold step; split_matches.
-  - destruct st as [n2r r2n cp hh a b]. destruct c'; reflexivity.
-  - destruct st as [n2r r2n cp hh a b]. destruct c'; reflexivity.
-  - destruct st as [n2r r2n cp hh a b]. destruct c'; reflexivity.
+  destruct e as [n o sw|o|n cls|n cls em|o d|n o|n| |c o sw|c req clid m args|c t|c]; cbn [on_conn] in NC.
+  - destruct st as [n2r r2n cp hh dc a b]. destruct c'; unfold step, assign_name; split_matches.
+  - destruct st as [n2r r2n cp hh dc a b]. destruct c'; unfold step; split_matches.
+  - destruct st as [n2r r2n cp hh dc a b]. destruct c'; unfold step; split_matches.
+  - destruct st as [n2r r2n cp hh dc a b]. destruct c'; unfold step; split_matches.
+  - destruct st as [n2r r2n cp hh dc a b]. destruct c'; reflexivity.
+  - destruct st as [n2r r2n cp hh dc a b]. destruct c'; reflexivity.
+  - destruct st as [n2r r2n cp hh dc a b]. destruct c'; reflexivity.
+  - destruct st as [n2r r2n cp hh dc a b]. destruct c'; reflexivity.
   - assert (c <> c') by congruence. cbn [step]. rewrite grant_frame by assumption.
     destruct (grant w st c o sw); reflexivity.
   - assert (NE : c <> c') by congruence. cbn [step].
@@ -701,7 +703,8 @@ Proof.
         destruct (grant w s0 c o ""); reflexivity.
       * cbn [fst snd]. f_equal. destruct st, c, c'; try congruence; reflexivity.
     + replace (s_copy (set_conn st c' x)) with (s_copy st) by (destruct c'; reflexivity).
-      destruct (obj_call w (s_copy st) (get_conn st c) clid m args) as [inst out].
+      replace (s_decl (set_conn st c' x)) with (s_decl st) by (destruct c'; reflexivity).
+      destruct (obj_call (eff w (s_decl st)) (s_copy st) (get_conn st c) clid m args) as [inst out].
       cbn [fst snd]. f_equal. destruct out; try reflexivity. destruct st, c, c'; try congruence; reflexivity.
   - assert (NE : c <> c') by congruence. cbn [step]. rewrite (get_set_other _ _ _ _ (not_eq_sym NE)). reflexivity.
   - assert (NE : c <> c') by congruence. cbn [step]. rewrite (get_set_other _ _ _ _ (not_eq_sym NE)).
@@ -731,7 +734,8 @@ Proof.
   rewrite F at 1. cbn [fst]. apply get_set_same.
 Qed.
 
-Definition same_view (c : cid) (s1 s2 : state) : Prop := get_conn s1 c = get_conn s2 c /\ s_copy s1 = s_copy s2.
+Definition same_view (c : cid) (s1 s2 : state) : Prop :=
+  get_conn s1 c = get_conn s2 c /\ s_copy s1 = s_copy s2 /\ s_decl s1 = s_decl s2.
 
 Lemma copy_assign st o p sw : s_copy (assign_name st o p sw) = s_copy st.
 Proof. unfold assign_name. destruct (zget o (s_r2n st)); reflexivity. Qed.
@@ -749,11 +753,12 @@ Proof. intros H. pose proof (found_name_lookup w st n) as F. rewrite H in F. tau
 Lemma step_copy w st e : (forall n cls, e <> RegisterCopy n cls) /\ (forall n cls em, e <> RegisterCopyPriv n cls em) ->
   s_copy (fst (step w st e)) = s_copy st.
 Proof.
-  intros [NR NP]. destruct e as [n o sw|o|n cls|n cls em|n o|n| |c o sw|c req clid m args|c t|c]; cbn [step].
+  intros [NR NP]. destruct e as [n o sw|o|n cls|n cls em|o d|n o|n| |c o sw|c req clid m args|c t|c]; cbn [step].
   - cbn [fst]. apply copy_assign.
   - cbn [fst]. destruct (zget o (s_r2n st)); [|reflexivity]. destruct (is_some _); reflexivity.
   - exfalso. eapply NR; reflexivity.
   - exfalso. eapply NP; reflexivity.
+  - reflexivity.
   - reflexivity.
   - reflexivity.
   - reflexivity.
@@ -765,10 +770,51 @@ Proof.
       destruct (req =? 0); [cbn [fst]; eapply copy_found; eauto|].
       pose proof (copy_grant w s0 c o "") as G. destruct (grant w s0 c o ""). cbn [fst] in *.
       rewrite G. eapply copy_found; eauto.
-    + destruct (obj_call w (s_copy st) (get_conn st c) clid m args) as [inst out]. cbn [fst].
+    + destruct (obj_call (eff w (s_decl st)) (s_copy st) (get_conn st c) clid m args) as [inst out]. cbn [fst].
       destruct out; rewrite ?copy_set_conn; reflexivity.
   - reflexivity.
   - cbn [fst]. apply copy_set_conn.
+Qed.
+
+Lemma decl_assign st o p sw : s_decl (assign_name st o p sw) = s_decl st.
+Proof. unfold assign_name. destruct (zget o (s_r2n st)); reflexivity. Qed.
+Lemma decl_set_conn st c x : s_decl (set_conn st c x) = s_decl st.
+Proof. destruct c; reflexivity. Qed.
+Lemma decl_grant w st c o sw : s_decl (fst (grant w st c o sw)) = s_decl st.
+Proof.
+  unfold grant. destruct (negb (c_alive (get_conn st c))); [reflexivity|].
+  destruct (match find_obj o (c_exports (get_conn st c)) with Some (k, rc) => _ | None => _ end) as [[clid rc] nxt].
+  destruct (rc + tracker_send_incr =? 1); cbn [fst]; rewrite ?decl_assign, ?decl_set_conn; reflexivity.
+Qed.
+Lemma decl_found w st n o s0 : found_name w st n = Some (o, s0) -> s_decl s0 = s_decl st.
+Proof.
+  unfold found_name. destruct (sget n (s_n2r st)); [intros H; inversion H; reflexivity|].
+  destruct (sget n (s_h st)); [|discriminate]. destruct (is_some _); intros H; inversion H; reflexivity.
+Qed.
+
+Lemma step_decl w st e : (forall o d, e <> Declare o d) -> s_decl (fst (step w st e)) = s_decl st.
+Proof.
+  intros ND. destruct e as [n o sw|o|n cls|n cls em|o d|n o|n| |c o sw|c req clid m args|c t|c]; cbn [step].
+  - cbn [fst]. apply decl_assign.
+  - cbn [fst]. destruct (zget o (s_r2n st)); [|reflexivity]. destruct (is_some _); reflexivity.
+  - cbn [fst]. destruct (is_some _); reflexivity.
+  - cbn [fst]. destruct default_registry_test; [reflexivity|]. destruct em; [|reflexivity]. destruct (is_some _); reflexivity.
+  - exfalso. eapply ND; reflexivity.
+  - reflexivity.
+  - reflexivity.
+  - reflexivity.
+  - pose proof (decl_grant w st c o sw) as G. destruct (grant w st c o sw). exact G.
+  - destruct (negb (c_alive (get_conn st c))); [reflexivity|].
+    destruct (clid =? broker_clid).
+    + destruct (broker_call m args) as [out fx]. destruct fx; cbn [fst]; rewrite ?decl_set_conn; try reflexivity.
+      destruct (found_name w st n) as [[o s0]|] eqn:F; [|reflexivity].
+      destruct (req =? 0); [cbn [fst]; eapply decl_found; eauto|].
+      pose proof (decl_grant w s0 c o "") as G. destruct (grant w s0 c o ""). cbn [fst] in *.
+      rewrite G. eapply decl_found; eauto.
+    + destruct (obj_call (eff w (s_decl st)) (s_copy st) (get_conn st c) clid m args) as [inst out]. cbn [fst].
+      destruct out; rewrite ?decl_set_conn; reflexivity.
+  - reflexivity.
+  - cbn [fst]. apply decl_set_conn.
 Qed.
 
 Lemma cid_eqb_eq a b : cid_eqb a b = true <-> a = b.
@@ -781,7 +827,9 @@ Proof.
   - symmetry. apply step_other_conn. intros E.
     destruct e; cbn [on_conn] in E; try discriminate; inversion E; subst;
       cbn [relevant on_conn] in R; rewrite (proj2 (cid_eqb_eq c c) eq_refl) in R; discriminate.
-  - symmetry. apply step_copy. split; [intros n cls E | intros n cls em E]; subst e; discriminate.
+  - split.
+    + symmetry. apply step_copy. split; [intros n cls E | intros n cls em E]; subst e; discriminate.
+    + symmetry. apply step_decl. intros o d E. subst e. discriminate.
 Qed.
 
 Lemma grant_local w s1 s2 c o sw : get_conn s1 c = get_conn s2 c ->
@@ -811,51 +859,59 @@ Lemma relevant_deterministic w c s1 s2 e :
   same_view c s1 s2 -> relevant c e = true -> is_lookup e = false ->
   same_view c (fst (step w s1 e)) (fst (step w s2 e)) /\ snd (step w s1 e) = snd (step w s2 e).
 Proof.
-  intros [EC EK] R NL.
+  intros [EC [EK ED]] R NL.
   assert (ON : forall c0, on_conn e = Some c0 -> c0 = c).
   { intros c0 E. unfold relevant in R. destruct e; cbn [on_conn] in E; try discriminate; inversion E; subst;
       symmetry; apply cid_eqb_eq; exact R. }
-  destruct e as [n o sw|o|n cls|n cls em|n o|n| |c0 o sw|c0 req clid m args|c0 t|c0]; try discriminate.
+  assert (SV : forall x, same_view c (set_conn s1 c x) (set_conn s2 c x)).
+  { intros x. split; [rewrite !get_set_same; reflexivity | split; [rewrite !copy_set_conn; exact EK | rewrite !decl_set_conn; exact ED]]. }
+  assert (V0 : same_view c s1 s2) by (split; [exact EC | split; [exact EK | exact ED]]).
+  destruct e as [n o sw|o|n cls|n cls em|o d|n o|n| |c0 o sw|c0 req clid m args|c0 t|c0]; try discriminate.
   - (* RegisterCopy *) cbn [step]. rewrite EK. destruct (is_some (sget n (s_copy s2))); cbn [fst snd].
-    + split; [split; auto | reflexivity].
-    + split; [|reflexivity]. split.
+    + split; [exact V0 | reflexivity].
+    + split; [|reflexivity]. split; [|split].
       * destruct c; cbn [get_conn set_copy s_a s_b] in *; exact EC.
       * cbn [set_copy s_copy]. rewrite ?EK. reflexivity.
-  - (* RegisterCopyPriv *) cbn [step]. destruct default_registry_test; cbn [fst snd]; [split; [split; auto | reflexivity]|].
-    destruct em; [|split; [split; auto | reflexivity]].
+      * exact ED.
+  - (* RegisterCopyPriv *) cbn [step]. destruct default_registry_test; cbn [fst snd]; [split; [exact V0 | reflexivity]|].
+    destruct em; [|split; [exact V0 | reflexivity]].
     rewrite EK. destruct (is_some (sget n (s_copy s2))); cbn [fst snd].
-    + split; [split; auto | reflexivity].
-    + split; [|reflexivity]. split.
+    + split; [exact V0 | reflexivity].
+    + split; [|reflexivity]. split; [|split].
       * destruct c; cbn [get_conn set_copy s_a s_b] in *; exact EC.
       * cbn [set_copy s_copy]. rewrite ?EK. reflexivity.
+      * exact ED.
+  - (* Declare *) cbn [step fst snd]. split; [|reflexivity]. split; [|split].
+    + destruct c; cbn [get_conn s_a s_b] in *; exact EC.
+    + exact EK.
+    + cbn [s_decl]. rewrite ED. reflexivity.
   - (* Grant *) rewrite (ON c0 eq_refl) in *. cbn [step].
     destruct (grant_local w s1 s2 c o sw EC) as [G1 G2].
     pose proof (copy_grant w s1 c o sw) as K1. pose proof (copy_grant w s2 c o sw) as K2.
+    pose proof (decl_grant w s1 c o sw) as D1. pose proof (decl_grant w s2 c o sw) as D2.
     destruct (grant w s1 c o sw) as [t1 l1]. destruct (grant w s2 c o sw) as [t2 l2]. cbn [fst snd] in *.
-    subst l2. split; [split; [exact G2 | congruence] | reflexivity].
+    subst l2. split; [split; [exact G2 | split; congruence] | reflexivity].
   - (* Msg *) rewrite (ON c0 eq_refl) in *. cbn [step]. rewrite EC.
-    destruct (negb (c_alive (get_conn s2 c))). { cbn [fst snd]. split; [split; auto | reflexivity]. }
+    destruct (negb (c_alive (get_conn s2 c))). { cbn [fst snd]. split; [exact V0 | reflexivity]. }
     destruct (clid =? broker_clid) eqn:BC.
     + destruct (broker_call m args) as [out fx] eqn:B. destruct fx; cbn [fst snd].
-      * split; [split; auto | reflexivity].
-      * split; [split; [rewrite !get_set_same; reflexivity | rewrite !copy_set_conn; exact EK] | reflexivity].
+      * split; [exact V0 | reflexivity].
+      * split; [apply SV | reflexivity].
       * exfalso. apply broker_call_lookup in B. subst m. cbn [is_lookup] in NL. rewrite BC in NL. discriminate.
-      * split; [split; [rewrite !get_set_same; reflexivity | rewrite !copy_set_conn; exact EK] | reflexivity].
-    + rewrite EK. destruct (obj_call w (s_copy s2) (get_conn s2 c) clid m args) as [inst out]. cbn [fst snd].
-      split; [|reflexivity]. destruct out; try (split; auto; fail).
-      split; [rewrite !get_set_same; reflexivity | rewrite !copy_set_conn; exact EK].
-  - (* TopMsg *) rewrite (ON c0 eq_refl) in *. cbn [step]. rewrite EC. cbn [fst snd]. split; [split; auto | reflexivity].
-  - (* Drop *) rewrite (ON c0 eq_refl) in *. cbn [step]. rewrite EC. cbn [fst snd].
-    split; [split; [rewrite !get_set_same; reflexivity | rewrite !copy_set_conn; exact EK] | reflexivity].
+      * split; [apply SV | reflexivity].
+    + rewrite EK, ED. destruct (obj_call (eff w (s_decl s2)) (s_copy s2) (get_conn s2 c) clid m args) as [inst out]. cbn [fst snd].
+      split; [|reflexivity]. destruct out; try exact V0. apply SV.
+  - (* TopMsg *) rewrite (ON c0 eq_refl) in *. cbn [step]. rewrite EC. cbn [fst snd]. split; [exact V0 | reflexivity].
+  - (* Drop *) rewrite (ON c0 eq_refl) in *. cbn [step]. rewrite EC. cbn [fst snd]. split; [apply SV | reflexivity].
 Qed.
 
 Definition no_lookup_on (c : cid) (h : list event) : Prop :=
   forall e, In e h -> relevant c e = true -> is_lookup e = false.
 
 Lemma same_view_trans c s1 s2 s3 : same_view c s1 s2 -> same_view c s2 s3 -> same_view c s1 s3.
-Proof. intros [A B] [C D]. split; congruence. Qed.
+Proof. intros [A [B B']] [C [D D']]. split; [|split]; congruence. Qed.
 Lemma same_view_sym c s1 s2 : same_view c s1 s2 -> same_view c s2 s1.
-Proof. intros [A B]. split; congruence. Qed.
+Proof. intros [A [B B']]. split; [|split]; congruence. Qed.
 
 Lemma run_vs_projection w c h : forall s1 s2,
   same_view c s1 s2 -> no_lookup_on c h ->
@@ -889,7 +945,7 @@ Theorem id_locality : forall w c h1 h2 s1 s2,
 Proof.
   intros w c h1 h2 s1 s2 V N1 N2 P.
   destruct (run_vs_projection w c h1 s1 s2 V N1) as [A1 B1].
-  destruct (run_vs_projection w c h2 s2 s2 (conj eq_refl eq_refl) N2) as [A2 B2].
+  destruct (run_vs_projection w c h2 s2 s2 (conj eq_refl (conj eq_refl eq_refl)) N2) as [A2 B2].
   rewrite P in A1, B1. split.
   - eapply same_view_trans; [exact A1 | apply same_view_sym; exact A2].
   - congruence.
@@ -899,7 +955,7 @@ Qed.
 Lemma copy_origin_step w st e : forall n cls,
   In (n, cls) (s_copy (fst (step w st e))) -> In (n, cls) (s_copy st) \/ e = RegisterCopy n cls.
 Proof.
-  intros n cls Hin. destruct e as [n0 o sw|o|n0 cls0|n0 cls0 em|n0 o|n0| |c o sw|c req clid m args|c t|c];
+  intros n cls Hin. destruct e as [n0 o sw|o|n0 cls0|n0 cls0 em|o d|n0 o|n0| |c o sw|c req clid m args|c t|c];
     try (left; rewrite step_copy in Hin by (split; intros; discriminate); exact Hin).
   - cbn [step fst] in Hin. destruct (is_some (sget n0 (s_copy st))); [left; exact Hin|].
     cbn [set_copy s_copy] in Hin. apply In_sset in Hin. destruct Hin as [E|Hin]; [right; inversion E; reflexivity | left; exact Hin].
@@ -962,12 +1018,13 @@ Qed.
 Lemma names_origin_step w st e n o :
   In (n, o) (s_n2r (fst (step w st e))) -> In (n, o) (s_n2r st) \/ names_event n o e.
 Proof.
-  destruct e as [p o' sw|o'|n0 cls|n0 cls em|n0 o'|n0| |c o' sw|c req clid m args|c t|c]; cbn [names_event].
+  destruct e as [p o' sw|o'|n0 cls|n0 cls em|o' d|n0 o'|n0| |c o' sw|c req clid m args|c t|c]; cbn [names_event].
   - cbn [step fst]. apply assign_n2r.
   - cbn [step fst]. intros H. left. destruct (zget o' (s_r2n st)); [|exact H].
     destruct (is_some _); [|exact H]. cbn [set_names s_n2r] in H. eapply In_sdel; eauto.
   - cbn [step fst]. intros H. left. destruct (is_some _); exact H.
   - cbn [step fst]. intros H. left. destruct default_registry_test; [exact H|]. destruct em; [|exact H]. destruct (is_some _); exact H.
+  - cbn [step fst]. auto.
   - cbn [step fst]. auto.
   - cbn [step fst]. auto.
   - cbn [step fst]. auto.
@@ -1014,6 +1071,48 @@ Proof.
   intros w h st n E NE NN HS. unfold lookup_name. destruct (sget n (s_n2r st)) as [o|] eqn:G; [|exact HS].
   exfalso. apply sget_In in G. subst st. destruct (names_origin w h init n o G) as [[]|[e [He Ne]]].
   eapply NN; eauto.
+Qed.
+
+(* ------------------------------------------------------------------ per-instance RemoteInterfaces *)
+Lemma iface_of_spec w decl o :
+  iface_of w decl o = match o_iface (w_obj w o) with Some l => Some l | None => zget o decl end.
+Proof. unfold iface_of, interface_lookup. destruct (o_iface (w_obj w o)); reflexivity. Qed.
+
+(* an object that exposes a RemoteInterface -- declared by its class or on the instance itself -- is entered only through
+   the methods of that interface, whatever other instances of its class expose *)
+Theorem instance_interface_enforced : forall w st c req clid m args st' r o a l,
+  step w st (Msg c req clid m args) = (st', r) -> r_out r = Enter (EObj o a) ->
+  match o_iface (w_obj w o) with Some l' => Some l' | None => zget o (s_decl st) end = Some l ->
+  exists s, m = MStr s /\ a = (remote_prefix ++ s)%string /\ In s l.
+Proof.
+  intros w st c req clid m args st' r o a l H Hout HI. rewrite <- iface_of_spec in HI.
+  destruct (calls_sound _ _ _ _ _ _ _ _ _ _ H Hout) as [_ [[_ [s [_ [_ E]]]]|[[_ [o' [_ E]]]|[_ [o' [s [_ [M [E [_ I]]]]]]]]]];
+    try discriminate.
+  inversion E; subst. exists s. split; [reflexivity|]. split; [reflexivity|]. apply I. exact HI.
+Qed.
+
+(* the declaration table is changed by Declare events on that very object only: using, sending or calling any other
+   object -- in particular another instance of the same class -- never changes what an object exposes *)
+Lemma decl_origin_step w st e o l :
+  In (o, l) (s_decl (fst (step w st e))) -> In (o, l) (s_decl st) \/ e = Declare o (Some l).
+Proof.
+  intros H. destruct e as [n o0 sw|o0|n cls|n cls em|o0 d|n o0|n| |c o0 sw|c req clid m args|c t|c];
+    try (left; rewrite step_decl in H by (intros; discriminate); exact H).
+  cbn [step fst s_decl] in H. destruct d as [l0|].
+  - apply In_zset in H. destruct H as [E|H]; [right; inversion E; reflexivity | left; exact H].
+  - left. eapply In_zdel; eauto.
+Qed.
+
+Theorem decl_origin : forall w h st o l,
+  zget o (s_decl (fst (run w st h))) = Some l -> In (o, l) (s_decl st) \/ In (Declare o (Some l)) h.
+Proof.
+  intros w h. induction h as [|e h IH]; intros st o l G.
+  - cbn in G. left. apply zget_In; exact G.
+  - cbn [run] in G. pose proof (decl_origin_step w st e o l) as S.
+    destruct (step w st e) as [st1 x]. specialize (IH st1 o l).
+    destruct (run w st1 h) as [st2 xs]. cbn [fst] in *.
+    destruct (IH G) as [H|H]; [|right; right; exact H].
+    destruct (S H) as [H'|H']; [left; exact H' | right; left; exact H'].
 Qed.
 
 (* ------------------------------------------------------------------ non-vacuity: the hypotheses above are met by real runs *)
